@@ -61,14 +61,39 @@ package routing
 //@ func deduplicateParams
 //@   nonilcheck
 //@   let same(p *config_parser.Param, q *config_parser.Param) = p.Key == q.Key && p.Val == q.Val
-//@   requires forall a *config_parser.Param, b *config_parser.Param {a.String(true, false), b.String(true, false)} :: (a.String(true, false) == b.String(true, false)) <==> same(a, b)
+//@   let ps(p *config_parser.Param) = config_parser.pstr(p.Key, p.Val, true, false)
+//@   assume forall k1 string, v1 string, k2 string, v2 string {config_parser.pstr(k1, v1, true, false), config_parser.pstr(k2, v2, true, false)} :: (config_parser.pstr(k1, v1, true, false) == config_parser.pstr(k2, v2, true, false)) ==> (k1 == k2 && v1 == v2)
 //@   ensures forall j int {result[j]} :: 0 <= j && j < len(result) ==> (exists i int :: 0 <= i && i < len(list) && result[j] == list[i])
 //@   ensures forall i int {list[i]} :: 0 <= i && i < len(list) ==> (exists j int :: 0 <= j && j < len(result) && same(result[j], list[i]))
 //@   ensures forall j int, k int :: 0 <= j && j < k && k < len(result) ==> !same(result[j], result[k])
 //@   loop 1
 //@     invariant res == nil || fresh(res)
 //@     invariant m != nil && fresh(m)
-//@     invariant forall j int {res[j]} :: 0 <= j && j < len(res) ==> (exists i int :: 0 <= i && i < $idx && res[j] == list[i]) && has(m, res[j].String(true, false))
-//@     invariant forall i int {list[i]} :: 0 <= i && i < $idx ==> (exists j int :: 0 <= j && j < len(res) && same(res[j], list[i]))
-//@     invariant forall j int, k int :: 0 <= j && j < k && k < len(res) ==> !same(res[j], res[k])
-//@     invariant forall s string {has(m, s)} :: has(m, s) ==> (exists j int :: 0 <= j && j < len(res) && res[j].String(true, false) == s)
+//@     invariant forall j int {res[j]} :: 0 <= j && j < len(res) ==> (exists i int :: 0 <= i && i < $idx && res[j] == list[i]) && has(m, ps(res[j]))
+//@     invariant forall i int {list[i]} :: 0 <= i && i < $idx ==> (exists j int {res[j]} :: 0 <= j && j < len(res) && same(res[j], list[i]))
+//@     invariant forall j int, k int {res[j], res[k]} :: 0 <= j && j < k && k < len(res) ==> !same(res[j], res[k])
+//@     invariant forall s string {has(m, s)} :: has(m, s) ==> (exists j int {res[j]} :: 0 <= j && j < len(res) && ps(res[j]) == s)
+
+// Geodata expansion: the cache of expanded lists is keyed by the complete reference as the user wrote it
+// (file, code AND attribute filter), so a cached `code` list is never returned for `code@attr`.
+//@ func (*DatReaderOptimizer).loadGeoSite
+//@   anchorsonly
+//@   dyncalls noeffect
+//@   modifies *
+//@   at call Lock#1 assert cacheKey == strings.ToLower(cat(cat(filename, ":"), old(code)))
+//@   at call UnmarshalGeoSite#1 assert a2 == nth(strings.Cut(old(code), "@"), 0)
+//@   at call Lock#2 assert cacheKey == strings.ToLower(cat(cat(filename, ":"), old(code)))
+//@ func (*DatReaderOptimizer).loadGeoIp
+//@   anchorsonly
+//@   dyncalls noeffect
+//@   modifies *
+//@   at call Lock#1 assert cacheKey == strings.ToLower(cat(cat(filename, ":"), old(code)))
+//@   at call UnmarshalGeoIp#1 assert a2 == old(code)
+//@   at call Lock#2 assert cacheKey == strings.ToLower(cat(cat(filename, ":"), old(code)))
+
+// C17 ("never a crash"): the per-rule worker of the geodata expansion must not index past what
+// strings.SplitN returned for an `ext:` value without a colon.
+//@ func (*DatReaderOptimizer).Optimize$1
+//@   nonilcheck
+//@   dyncalls noeffect
+//@   modifies *
